@@ -99,6 +99,21 @@ class CallMixin:
                 kwargs[kw.arg] = self.eval(kw.value, st, frame)
         return self.call_value(fav, args, kwargs, n, st, frame)
 
+    def _index_may_raise(self, n, args, st, frame):
+        """seq.index(x[, start[, end]]) raises ValueError when x is not found: an explicit-raise site unless a branch
+        fact says `x in seq` for the very search (a start / end argument searches only a part, so a membership test of
+        the whole sequence does not cover it)"""
+        if not (isinstance(n, ast.Call) and isinstance(n.func, ast.Attribute) and n.args):
+            return
+        if len(n.args) <= 2 and not n.keywords:
+            seq, x = ast.unparse(n.func.value), ast.unparse(n.args[0])
+            if len(n.args) == 2:
+                seq = "%s[%s:]" % (seq, ast.unparse(n.args[1]))      # the part that is searched
+            for text, pol, _names in st.facts:
+                if (text == "%s in %s" % (x, seq) and pol) or (text == "%s not in %s" % (x, seq) and not pol):
+                    return
+        self.ev(frame, st, "raise", n, exc=("ValueError",), note="lookup:index")
+
     def _positional_arity(self, fav: AV):
         """number of positional parameters the callee takes (receiver excluded), when the callee is known"""
         fn = fav.fn
@@ -144,6 +159,9 @@ class CallMixin:
             _, fi, recv = fn
             if fi.kind == "class" and recv is None:
                 recv = AV(types=frozenset({"classobj"}), fn=("class", fi.cls.qname))
+            if fi.kind in ("method", "property") and recv is None and args and fi.cls is not None:
+                # a method taken from the class and called with the instance first: `Base.method(obj, ..)`
+                recv, args = args[0], list(args[1:])
             return self.call_function(fi, recv, args, kwargs, n, st, frame)
         if kind == "class":
             return self.construct(fn[1], args, kwargs, n, st, frame)
@@ -207,6 +225,11 @@ class CallMixin:
         if hook is not None:
             res = hook(self, fi, recv, args, kwargs, res, e)
             e.result = res
+        for ghook in getattr(self, "generic_hooks", ()):
+            r2 = ghook(self, fi, recv, args, kwargs, res, e)
+            if r2 is not res:
+                res = r2
+                e.result = res
         return res
 
     def replay(self, summ: Summary, recv, st, frame):
@@ -758,6 +781,25 @@ class CallMixin:
             deps = recv.deps.union(*[a.deps for a in args]) if args else recv.deps
             return AV(types=None, deps=deps)
         owners = [fi for fi in owners if _arity_ok(fi, len(args), kwargs)]
+        # of several classes that have a method of this name, those whose annotated parameters cannot take the arguments
+        # at hand are not the receiver (`x.subsumes(state)` is State.subsumes, not FeatureStructure.subsumes)
+        if len(owners) > 1:
+            def _fits(fi):
+                ps = [p for p in (fi.node.args.posonlyargs + fi.node.args.args)][1:]
+                for p_, a in zip(ps, args):
+                    if p_.annotation is None or a.types is None or not a.types:
+                        continue
+                    want = self.annotation_av(fi, p_.annotation).types
+                    if want is None or not want:
+                        continue
+                    repo_w = {w for w in want if w in self.prog.classes}
+                    repo_a = {x for x in a.types if x in self.prog.classes}
+                    if repo_w and repo_a and not any(w in self.prog.classes[x].mro for x in repo_a for w in repo_w):
+                        return False
+                return True
+            fitting = [fi for fi in owners if _fits(fi)]
+            if fitting:
+                owners = fitting
         outs = []
         for fi in owners:
             outs.append(self.call_function(fi, replace(recv, types=frozenset({fi.cls.qname})), list(args), dict(kwargs),
@@ -809,6 +851,8 @@ class CallMixin:
             if name in ("split", "splitlines", "rsplit"):
                 return AV(types=frozenset({"list"}), alias=fresh, elem=AV(types=frozenset({"str"}), deps=deps), deps=deps)
             if name in ("find", "index", "count"):
+                if name == "index":
+                    self._index_may_raise(n, args, st, frame)
                 return AV(types=frozenset({"int"}), deps=deps)
             if name == "partition":
                 s = AV(types=frozenset({"str"}), deps=deps)
@@ -875,6 +919,8 @@ class CallMixin:
             v = replace(v, alias=v.alias | frozenset(loc_ext(l, "[]") for l in recv.alias))
             return AV(types=frozenset({"dict_values"}), elem=v, deps=deps, alias=fresh)
         if name in ("index", "count"):
+            if name == "index":
+                self._index_may_raise(n, args, st, frame)
             return AV(types=frozenset({"int"}), deps=deps)
         if name == "__iter__":
             return AV(types=frozenset({"iterator"}), elem=_strip(e), deps=deps, alias=fresh)
